@@ -80,26 +80,35 @@ def _merge_refuse(stmts):
     return top
 
 def _disjoint_step(tr, stmts):
-    """structural recogniser for `_disjoint`: scan `combinations(range(len(fields)), 2)` in order; on the first intersecting
-    pair (m, n): extend group m by group n, recompute its extent with `boundary`, pop n, restart; else return fields.
-    Emits the constants the model depends on: (keep, drop, restart) = (0 for m / 1 for n, …, 1)."""
-    loops = [s for s in stmts if isinstance(s, ast.For)]
-    tail = [s for s in stmts if not isinstance(s, (ast.For, ast.Expr))]
-    if len(loops) != 1 or len(tail) != 1 or ast.unparse(tail[0]).strip() != 'return fields': raise Refuse('_disjoint: shape changed')
-    lp = loops[0]
-    if ast.unparse(lp.target) != '(m, n)' or ast.unparse(lp.iter) != 'combinations(range(len(fields)), 2)' or len(lp.body) != 1:
+    """structural recogniser for `_disjoint` (loop form): `merged = True; while merged: merged = False; for m, n in
+    combinations(range(len(fields)), 2): if <extents intersect>: <merge step>; merged = True; break` and `return fields`, i.e. scan
+    the pairs in `combinations` order, merge the FIRST intersecting pair, rescan the shortened list from the start, stop when a
+    full scan finds nothing — the iteration the model's fuel recursion `Lentil.disjoint` performs (`disjoint_succ_some`: one step;
+    `reduce_terminates`: at most len(fields) steps; `reduce_fixed_point_iff`: the exit condition). The merge step is
+    `fields[a]['field'].extend(fields[b]['field']); fields[r]['extent'] = boundary(fields[r]['field']); fields.pop(p)`;
+    emits (a, b, r, p) with 0 for m, 1 for n."""
+    import re
+    body = [s for s in stmts if not (isinstance(s, ast.Expr) and isinstance(getattr(s, 'value', None), ast.Constant))]
+    if len(body) != 3: raise Refuse('_disjoint: expected `merged = True`, a while loop and `return fields`')
+    init, loop, ret = body
+    if not (isinstance(init, ast.Assign) and ast.unparse(init) == 'merged = True'): raise Refuse('_disjoint: loop flag initialisation changed')
+    if not (isinstance(ret, ast.Return) and ast.unparse(ret) == 'return fields'): raise Refuse('_disjoint: does not return fields')
+    if not (isinstance(loop, ast.While) and ast.unparse(loop.test) == 'merged' and not loop.orelse and len(loop.body) == 2
+            and ast.unparse(loop.body[0]) == 'merged = False' and isinstance(loop.body[1], ast.For)):
+        raise Refuse('_disjoint: `while merged: merged = False; for …` not found')
+    lp = loop.body[1]
+    if ast.unparse(lp.target) != '(m, n)' or ast.unparse(lp.iter) != 'combinations(range(len(fields)), 2)' or len(lp.body) != 1 or lp.orelse:
         raise Refuse('_disjoint: pair scan changed')
     node = lp.body[0]
-    if not isinstance(node, ast.If) or ast.unparse(node.test) != "lentil.extent.intersect(fields[m]['extent'], fields[n]['extent'])":
+    if not isinstance(node, ast.If) or node.orelse or ast.unparse(node.test) != "lentil.extent.intersect(fields[m]['extent'], fields[n]['extent'])":
         raise Refuse('_disjoint: pair test changed')
-    body = [ast.unparse(x).strip() for x in node.body]
+    step = [ast.unparse(x).strip() for x in node.body]
     idx = {'m': 0, 'n': 1}
-    import re
     pats = [r"fields\[(m|n)\]\['field'\]\.extend\(fields\[(m|n)\]\['field'\]\)", r"fields\[(m|n)\]\['extent'\] = boundary\(fields\[(m|n)\]\['field'\]\)",
-            r"fields\.pop\((m|n)\)", r"return _disjoint\(fields\)"]
-    if len(body) != 4: raise Refuse('_disjoint: merge step has %d statements' % len(body))
-    ms = [re.fullmatch(pt, b) for pt, b in zip(pats, body)]
-    if not all(ms): raise Refuse('_disjoint: merge step changed: ' + '; '.join(body)[:120])
+            r"fields\.pop\((m|n)\)", r"merged = True", r"break"]
+    if len(step) != 5: raise Refuse('_disjoint: merge step has %d statements' % len(step))
+    ms = [re.fullmatch(pt, b) for pt, b in zip(pats, step)]
+    if not all(ms): raise Refuse('_disjoint: merge step changed: ' + '; '.join(step)[:120])
     keep, src = ms[0].group(1), ms[0].group(2)
     if ms[1].group(1) != ms[1].group(2): raise Refuse('_disjoint: extent recomputed from another group')
     vals = [idx[keep], idx[src], idx[ms[1].group(1)], idx[ms[2].group(1)]]
